@@ -27,7 +27,7 @@ type c20Phase struct {
 	Uses []c20Use `json:"uses"` // issued concurrently at the same virtual instant
 	// CacheRegions warms the cache for the table before the uses
 	CacheRegions string `json:"cache_regions,omitempty"`
-	// Fault after the phase: "" | reset | silent | fatal, on server index FaultServer
+	// Fault after the phase: "" | reset | silent | fatal | multistop, on server index FaultServer
 	Fault       string `json:"fault,omitempty"`
 	FaultServer int    `json:"fault_server,omitempty"`
 	// Change of the layout after the phase (connections stay healthy): "" | split | merge | move
@@ -203,6 +203,28 @@ func c20RunInBubble(c c20Case) (out Outcome) {
 			}
 			time.Sleep(readTimeout + 500*time.Millisecond)
 			cl.SetServer(addr, func(s *sim.ServerState) { s.Silent = false })
+		case "multistop":
+			// the regions of that server answer their next multi-request with a region-level
+			// RegionServerStoppedException; the connection itself stays up
+			n := 0
+			cl.Lock()
+			for _, r := range cl.Regions {
+				if r.Addr == addr && r.Table == c.Layout.Table {
+					r.MultiExc = append(r.MultiExc, sim.Exc{Class: sim.RSStopped, Stack: sim.RSStopped + ": Server is stopping"})
+					n++
+				}
+			}
+			cl.Unlock()
+			if n > 0 {
+				anyFault = true
+				for _, r := range cl.TableRegions(c.Layout.Table) {
+					if r.Addr == addr {
+						go doOp(client, context.Background(), c.Layout.Table, opSpec{Kind: "put", Key: r.Start, Marker: fmt.Sprintf("mkms%d", pi)})
+						break
+					}
+				}
+				time.Sleep(50 * time.Millisecond)
+			}
 		case "fatal":
 			cl.SetServer(addr, func(s *sim.ServerState) { s.Fatal = sim.RSStopped })
 			anyFault = true
@@ -305,7 +327,7 @@ func c20Gen(t *rapid.T) c20Case {
 		if rapid.IntRange(0, 4).Draw(t, "cache") == 0 {
 			ph.CacheRegions = c.Layout.Table
 		}
-		ph.Fault = rapid.SampledFrom([]string{"", "", "", "reset", "silent", "fatal"}).Draw(t, "fault")
+		ph.Fault = rapid.SampledFrom([]string{"", "", "", "reset", "silent", "fatal", "multistop"}).Draw(t, "fault")
 		ph.FaultServer = rapid.IntRange(0, 3).Draw(t, "faultserver")
 		if rapid.IntRange(0, 5).Draw(t, "metaslow") == 0 {
 			ph.MetaSlowMS = rapid.SampledFrom([]int{30500, 31000, 45000, 70000}).Draw(t, "metaslowms")
